@@ -52,9 +52,24 @@ Example C10_example :
   kept title_ascii [[112;111]; [80;111]; [97]; [97]; [52]]%N = [[112;111]; [97]; [52]]%N.
 Proof. vm_compute. reflexivity. Qed.
 
+(** ---- "leaves the caller's slice untouched": in the model by immutability; in the CURRENT source, every store of
+        NewWordList goes to memory it allocated itself (facts extracted by the translator, coq/Gen/Effects.v) ---- *)
+From Spg.Gen Require Effects.
+From Coq Require Import String.
+Open Scope string_scope.
+Theorem C10_caller_slice_untouched :
+  forallb (fun s => negb (String.eqb (Effects.s_func s) "NewWordList") || String.eqb (Effects.s_class s) "fresh") Effects.eff_stores = true /\
+  (* and it hands its parameter to nothing in the package that could write it *)
+  forallb (fun c => negb (String.eqb (Effects.c_func c) "NewWordList") ||
+                    forallb (fun a => negb (String.prefix "param:" (snd a))) (Effects.c_args c) ||
+                    String.prefix "ext:" (Effects.c_callee c)) Effects.eff_calls = true.
+Proof. vm_compute. split; reflexivity. Qed.
+Close Scope string_scope.
+
 Print Assumptions C10_kept_exact.
 Print Assumptions C10_order_invariant.
 Print Assumptions C10_new_word_list.
 Print Assumptions C10_words_distinct.
 Print Assumptions C10_empty_rejected.
 Print Assumptions C10_title_ascii_idempotent.
+Print Assumptions C10_caller_slice_untouched.
